@@ -10,11 +10,48 @@ namespace ClairModel.TarFS
 
 /-! ### Rejection: archives of directories and regular files without a defined extraction -/
 
+/-- The reference tree holds directories and regular files only. -/
+def PlainTree (t : XTree) : Prop := ∀ k x, alGet t k = some x → x = .dir ∨ ∃ d, x = .file d
+
+theorem PlainTree.set {t : XTree} (h : PlainTree t) (k : Bytes) (x : XNode) (hx : x = .dir ∨ ∃ d, x = .file d) :
+    PlainTree (alSet t k x) := by
+  intro k' y hy
+  rw [alGet_alSet] at hy
+  split at hy
+  · cases hy; exact hx
+  · exact h k' y hy
+
+theorem xMkdirs_plainTree : ∀ (ds : List Bytes) (t t1 : XTree), PlainTree t → xMkdirs t ds = some t1 → PlainTree t1 := by
+  intro ds
+  induction ds with
+  | nil => intro t t1 h hx; simp [xMkdirs] at hx; subst hx; exact h
+  | cons d ds ih =>
+    intro t t1 h hx
+    simp only [xMkdirs] at hx
+    split at hx
+    · exact ih _ _ (h.set d .dir (Or.inl rfl)) hx
+    · exact ih _ _ h hx
+    · cases hx
+
+/-- In a view that presents a tree of directories and regular files, a
+    connected key is a directory or a regular file. -/
+theorem kind_of_plainTree {skip : List Bytes} {fs : FS} {t : XTree} (h : TreeOK skip fs) (hrep : Rep skip fs t)
+    (hpt : PlainTree t) {k : Bytes} {i : Nat} (hk : k ∉ skip) (hi : fs.get? k = some i) :
+    (fs.ino i).kind = .dir ∨ (fs.ino i).kind = .reg := by
+  have hnode := hrep k hk
+  simp only [FS.node?, hi] at hnode
+  rcases h.kinds k i hi with ⟨hd, _⟩ | ⟨_, hnl, _, _⟩
+  · exact Or.inl hd
+  · rcases hpt k _ hnode.symm with hx | ⟨d, hx⟩
+    · exact Or.inl ((inoNode_dir_iff _).1 hx)
+    · right
+      cases hkk : (fs.ino i).kind <;> simp [inoNode, hkk] at hx hnl ⊢
+
 /-- walkTo in create mode along a path with a regular file in it: it fails,
     or (when the file is the last element) arrives at that file. -/
 theorem walk_create_fail {skip : List Bytes} (fuel : Nat) (hdot : dotP ∉ skip) :
     ∀ (rest done : List Bytes) (fs : FS) (cur : Nat) (t : XTree),
-      TreeOK skip fs → Rep skip fs t → GoodComps (done ++ rest) → (∀ x ∈ done ++ rest, ValidU x) →
+      TreeOK skip fs → Rep skip fs t → PlainTree t → GoodComps (done ++ rest) → (∀ x ∈ done ++ rest, ValidU x) →
       fs.get? (pathOf done) = some cur → (fs.ino cur).kind = .dir →
       (∀ pre suf, done ++ rest = pre ++ suf → pre ≠ [] → joinSlash pre ∉ skip) →
       xMkdirs t (prefixesAux (joinSlash done) done.isEmpty rest) = none →
@@ -25,10 +62,10 @@ theorem walk_create_fail {skip : List Bytes} (fuel : Nat) (hdot : dotP ∉ skip)
   intro rest
   induction rest with
   | nil =>
-    intro done fs cur t h hrep _ _ hcur hkd _ hx
+    intro done fs cur t h hrep _ _ _ hcur hkd _ hx
     simp [prefixesAux, xMkdirs] at hx
   | cons n rest ih =>
-    intro done fs cur t h hrep hg hu hcur hkd hsk hx
+    intro done fs cur t h hrep hpt hg hu hcur hkd hsk hx
     have hg1 : GoodComps (done ++ [n]) := fun x hx => hg x (by simp at hx ⊢; rcases hx with hx | hx <;> simp [hx])
     have hg2 : GoodComps ((done ++ [n]) ++ rest) := by simpa [List.append_assoc] using hg
     have hu2 : ∀ x ∈ (done ++ [n]) ++ rest, ValidU x := by simpa [List.append_assoc] using hu
@@ -58,12 +95,16 @@ theorem walk_create_fail {skip : List Bytes} (fuel : Nat) (hdot : dotP ∉ skip)
         simp only [xMkdirs, ← hnode] at hx
         rw [(resolve_plain _ rest.isEmpty _ fs c).1 hk]
         simp only
-        have := ih (done ++ [n]) fs c t h hrep hg2 hu2 (by rw [hpath]; exact hb) hk hsk'
+        have := ih (done ++ [n]) fs c t h hrep hpt hg2 hu2 (by rw [hpath]; exact hb) hk hsk'
           (by rw [hempty]; exact hx)
         rw [hempty] at this
         exact this
       · -- the regular file
-        rw [(resolve_plain _ rest.isEmpty _ fs c).2 hk]
+        have hk : (fs.ino c).kind = .reg := by
+          rcases kind_of_plainTree h hrep hpt hskb hb with h' | h'
+          · exact absurd h' hk
+          · exact h'
+        rw [(resolve_plain _ rest.isEmpty _ fs c).2 (by simp [hk]) (by simp [hk])]
         by_cases hr : rest = []
         · subst hr
           simp only [List.isEmpty_nil, if_true, walkLoop]
@@ -81,10 +122,10 @@ theorem walk_create_fail {skip : List Bytes} (fuel : Nat) (hdot : dotP ∉ skip)
       obtain ⟨cs, hcs⟩ : ∃ cs, (fs.ino cur).children = some cs := by
         rcases h.kinds _ cur hcur with ⟨_, hc⟩ | ⟨hk, _⟩
         · exact hc
-        · rw [hkd] at hk; cases hk
+        · exact absurd hkd hk
       have hnamed : ∀ k i, fs.get? k = some i → i < fs.inodes.length := fun k i hk => (h.named k i hk).2
       have h1 : TreeOK skip (fs.leaf (joinSlash (done ++ [n])) (newDir (joinSlash (done ++ [n]))) cur) :=
-        h.leaf hbc hb hskb rfl (leafIno_newDir _) (by rw [hdir]; exact hcur) (by rw [hdir]; exact hdones) hkd
+        h.leaf hbc hb hskb rfl (leafIno_newDir _) (by simp [newDir]) (by rw [hdir]; exact hcur) (by rw [hdir]; exact hdones) hkd
       have hrep1 := hrep.leaf (joinSlash (done ++ [n])) (newDir (joinSlash (done ++ [n]))) hnamed hb hcs
       have hgetb : (fs.leaf (joinSlash (done ++ [n])) (newDir (joinSlash (done ++ [n]))) cur).get?
           (joinSlash (done ++ [n])) = some fs.inodes.length := by rw [leaf_get]; simp
@@ -99,15 +140,15 @@ theorem walk_create_fail {skip : List Bytes} (fuel : Nat) (hdot : dotP ∉ skip)
         rw [(leaf_ino_kind_data fs _ _ hcs _).1, pend_ino_len]; rfl
       have hnd : inoNode (newDir (joinSlash (done ++ [n]))) = .dir := rfl
       rw [hnd] at hrep1
-      have := ih (done ++ [n]) _ fs.inodes.length _ h1 hrep1 hg2 hu2 (by rw [hpath]; exact hgetb) hkind1 hsk'
-        (by rw [hempty]; exact hx)
+      have := ih (done ++ [n]) _ fs.inodes.length _ h1 hrep1 (hpt.set _ _ (Or.inl rfl)) hg2 hu2
+        (by rw [hpath]; exact hgetb) hkind1 hsk' (by rw [hempty]; exact hx)
       rw [hempty] at this
       exact this
 
 
 /-- The `AddEnt:` loop when the directory path of the name holds a regular file: an error. -/
 theorem addEnt_plain_fail (fuel f : Nat) {fs1 : FS} {init : List Bytes} {c : Bytes} (len : Nat) {t : XTree}
-    (h : TreeOK [joinSlash (init ++ [c])] fs1) (hrep : Rep [joinSlash (init ++ [c])] fs1 t)
+    (h : TreeOK [joinSlash (init ++ [c])] fs1) (hrep : Rep [joinSlash (init ++ [c])] fs1 t) (hpt : PlainTree t)
     (hg : GoodComps (init ++ [c])) (hu : ∀ x ∈ init ++ [c], ValidU x)
     (hx : xMkdirs t (prefixesAux [] true init) = none) :
     ∃ fs2 e, addEnt (mkdirFn fuel) len (joinSlash (init ++ [c])) (f + 1) fs1 []
@@ -134,18 +175,24 @@ theorem addEnt_plain_fail (fuel f : Nat) {fs1 : FS} {init : List Bytes} {c : Byt
       simp [FS.getD, this]
     obtain ⟨fs2, r, hw, hr⟩ :=
       walk_create_fail (skip := [joinSlash (init ++ [c])]) fuel (by simp; exact fun e => hnd e.symm)
-        init [] fs1 0 t h hrep (by simpa using hgi) (by simpa using hui)
+        init [] fs1 0 t h hrep hpt (by simpa using hgi) (by simpa using hui)
         (by simpa [pathOf] using h.root) h.rootDir (by simpa using hsk) (by simpa [joinSlash] using hx)
     simp only [joinSlash, List.isEmpty_nil] at hw
     have hdc' : Contained (dirOf (joinSlash (init ++ [c]))) := by rw [hdj]; exact hdc
+    have hnosym : ∀ pre suf, init = pre ++ suf → pre ≠ [] → ∀ i, fs1.get? (joinSlash pre) = some i →
+        (fs1.ino i).kind ≠ .sym := by
+      intro pre suf e hp i hgi'
+      rcases kind_of_plainTree h hrep hpt (hsk pre suf e hp) hgi' with h' | h' <;> simp [h']
     rw [addEnt]
     simp only [hdne, if_false, hdd]
-    rw [h.getInode_eq hdc' (by rw [hdj, hsplit]; exact hsk)]
+    rw [h.getInode_eq hdc' (by rw [hdj, hsplit]; exact hsk)
+      (by rw [hdj, hsplit]; exact fun pre suf e hp _ => hnosym pre suf e hp)]
     rw [hdj]
     cases hget : fs1.get? (joinSlash init) with
     | some j' =>
       have hhit := h.walkLoop_hit (some (mkdirFn fuel)) init [] 0 j' (by simpa using hgi)
         (by simpa [pathOf] using h.root) (by simpa using hsk) (by simpa [pathOf, hi] using hget)
+        (hnosym init [] (by simp) hi j' hget)
       simp only [joinSlash, List.isEmpty_nil] at hhit
       rw [hhit] at hw
       simp only [Prod.mk.injEq] at hw
@@ -165,16 +212,19 @@ theorem addEnt_plain_fail (fuel f : Nat) {fs1 : FS} {init : List Bytes} {c : Byt
 /-- A new member whose directory path holds a regular file: `add` fails. -/
 theorem add_member_fail (fuel : Nat) {fs : FS} {t : XTree} {init : List Bytes} {c : Bytes} {ino : Inode}
     (hl : HL) (u : Bool)
-    (h : TreeOK [] fs) (hrep : Rep [] fs t)
+    (h : TreeOK [] fs) (hrep : Rep [] fs t) (hpt : PlainTree t)
     (hg : GoodComps (init ++ [c])) (hu : ∀ x ∈ init ++ [c], ValidU x)
     (hfresh : fs.get? (joinSlash (init ++ [c])) = none)
-    (hleaf : LeafIno ino)
+    (hleaf : LeafIno ino) (hxl : ino.kind = .sym → Contained ino.link)
     (hx : xMkdirs t (prefixesAux [] true init) = none) :
     ∃ fs' hl' e, add (fuel + 2) fs hl (joinSlash (init ++ [c])) ino u = (fs', hl', some e) := by
   have hnc : Contained (joinSlash (init ++ [c])) := contained_joinSlash (by simp) hg hu
-  have hnl : ino.kind ≠ .link := by rcases hleaf with ⟨hk, _⟩ | ⟨hk, _⟩ <;> simp [hk]
+  have hnl : ino.kind ≠ .link := by
+    rcases hleaf with ⟨hk, _⟩ | ⟨_, hk, _⟩
+    · simp [hk]
+    · exact hk
   have hleaf' : LeafIno { ino with name := joinSlash (init ++ [c]) } := hleaf
-  have h1 := h.pend hnc hfresh (x := { ino with name := joinSlash (init ++ [c]) }) rfl hleaf'
+  have h1 := h.pend hnc hfresh (x := { ino with name := joinSlash (init ++ [c]) }) rfl hleaf' hxl
   have hrep1 : Rep [joinSlash (init ++ [c])] (fs.pend (joinSlash (init ++ [c])) { ino with name := joinSlash (init ++ [c]) }) t := by
     intro k hk
     simp only [List.mem_singleton] at hk
@@ -187,7 +237,7 @@ theorem add_member_fail (fuel : Nat) {fs : FS} {t : XTree} {init : List Bytes} {
   simp only [again_fresh hfresh]
   obtain ⟨f, hf⟩ : ∃ f, 2 * (fs.inodes ++ [{ ino with name := joinSlash (init ++ [c]) }]).length + 8 = f + 1 := ⟨_, rfl⟩
   rw [hf]
-  obtain ⟨fs2, e, hent⟩ := addEnt_plain_fail fuel f fs.inodes.length h1 hrep1 hg hu hx
+  obtain ⟨fs2, e, hent⟩ := addEnt_plain_fail fuel f fs.inodes.length h1 hrep1 hpt hg hu hx
   have hent' : addEnt (fun f p => (add (fuel + 1) f [] p (newDir p) false).1) fs.inodes.length
       (joinSlash (init ++ [c])) (f + 1)
       { lookup := alSet fs.lookup (joinSlash (init ++ [c])) fs.inodes.length,
@@ -204,7 +254,7 @@ theorem add_over_dir_fail (fuel : Nat) (fs : FS) (hl : HL) (name : Bytes) (ino :
 
 /-- One member without a defined extraction: `addMembers` fails. -/
 theorem member_fail (m : Member) (ms : List Member) (fs : FS) (t : XTree)
-    (h : TreeOK [] fs) (hrep : Rep [] fs t) (hkind : m.kind = .dir ∨ m.kind = .reg)
+    (h : TreeOK [] fs) (hrep : Rep [] fs t) (hpt : PlainTree t) (hkind : m.kind = .dir ∨ m.kind = .reg)
     (hins : xInsert t m = none) : ∃ e, addMembers fs [] (m :: ms) = .error e := by
   have hn : Contained (normPath m.name) := contained_normPath _
   have hnode := hrep (normPath m.name) (by simp)
@@ -232,7 +282,7 @@ theorem member_fail (m : Member) (ms : List Member) (fs : FS) (t : XTree)
       | none =>
         obtain ⟨fs', hl', e, hadd⟩ := add_member_fail 4094 (fs := fs) (t := t)
           (ino := { kind := .dir, name := joinSlash (init ++ [c]), link := m.link, children := some [], data := some [] })
-          [] true h hrep hg hu hfresh (Or.inl ⟨rfl, rfl⟩) hA
+          [] true h hrep hpt hg hu hfresh (Or.inl ⟨rfl, rfl⟩) (by simp) hA
         have hprep : prepMember fs m = some { kind := .dir, name := joinSlash (init ++ [c]), link := m.link, children := some [], data := some [] } := by
           simp [prepMember, hk, hnn, hfresh]
         refine ⟨e, ?_⟩
@@ -263,12 +313,9 @@ theorem member_fail (m : Member) (ms : List Member) (fs : FS) (t : XTree)
           | none => rw [hal] at hnode; cases hnode
           | some node =>
             rw [hal] at hins hnode
-            cases node with
-            | file d => simp at hins
-            | dir =>
-              simp only [Option.some.injEq, inoNode] at hnode
-              cases hkk : (fs.ino i).kind <;> simp [hkk] at hnode
-              rfl
+            rcases hpt _ _ hal with rfl | ⟨d, rfl⟩
+            · exact (inoNode_dir_iff _).1 (Option.some.inj hnode)
+            · simp at hins
         refine ⟨.exist, ?_⟩
         rw [addMembers, hprep]
         simp only
@@ -284,33 +331,61 @@ theorem member_fail (m : Member) (ms : List Member) (fs : FS) (t : XTree)
         | none =>
           obtain ⟨fs', hl', e, hadd⟩ := add_member_fail 4094 (fs := fs) (t := t)
             (ino := { kind := .reg, name := joinSlash (init ++ [c]), link := m.link, children := none, data := some m.data })
-            [] true h hrep hg hu hget? (Or.inr ⟨rfl, rfl, m.data, rfl⟩) hA
+            [] true h hrep hpt hg hu hget? (Or.inr ⟨by simp, by simp, rfl, fun _ => ⟨m.data, rfl⟩⟩) (by simp) hA
           refine ⟨e, ?_⟩
           rw [addMembers, hprep]
           simp only
           rw [addFuel_eq, hadd]
 
 /-- An archive of directories and regular files without a defined extraction is rejected. -/
+theorem xInsert_plainTree (t t2 : XTree) (m : Member) (hpt : PlainTree t)
+    (hk : m.kind = .dir ∨ m.kind = .reg) (h : xInsert t m = some t2) : PlainTree t2 := by
+  unfold xInsert at h
+  simp only at h
+  rcases hk with hk | hk
+  · simp only [hk] at h
+    split at h
+    · cases h; exact hpt
+    · exact xMkdirs_plainTree _ _ _ hpt h
+  · simp only [hk] at h
+    split at h
+    · cases h
+    · split at h
+      · cases h
+      · rename_i t1 ht1
+        have h1 := xMkdirs_plainTree _ _ _ hpt ht1
+        split at h
+        · cases h; exact h1.set _ _ (Or.inr ⟨_, rfl⟩)
+        · cases h; exact h1.set _ _ (Or.inr ⟨_, rfl⟩)
+        · cases h
+
 theorem addMembers_plain_fail : ∀ (ms : List Member) (fs : FS) (t : XTree),
-    TreeOK [] fs → Rep [] fs t → (∀ m ∈ ms, m.kind = .dir ∨ m.kind = .reg) → extractFrom t ms = none →
+    TreeOK [] fs → Rep [] fs t → PlainTree t → (∀ m ∈ ms, m.kind = .dir ∨ m.kind = .reg) → extractFrom t ms = none →
     ∃ e, addMembers fs [] ms = .error e := by
   intro ms
   induction ms with
-  | nil => intro fs t _ _ _ hx; simp [extractFrom] at hx
+  | nil => intro fs t _ _ _ _ hx; simp [extractFrom] at hx
   | cons m ms ih =>
-    intro fs t h hrep hk hx
+    intro fs t h hrep hpt hk hx
     simp only [extractFrom] at hx
     cases hins : xInsert t m with
-    | none => exact member_fail m ms fs t h hrep (hk m (by simp)) hins
+    | none => exact member_fail m ms fs t h hrep hpt (hk m (by simp)) hins
     | some t2 =>
       simp only [hins] at hx
       obtain ⟨fs2, he, h2, hrep2⟩ := member_step m ms fs t t2 h hrep hins
-      obtain ⟨e, hfail⟩ := ih fs2 t2 h2 hrep2 (fun x hx' => hk x (by simp [hx'])) hx
+      obtain ⟨e, hfail⟩ := ih fs2 t2 h2 hrep2 (xInsert_plainTree t t2 m hpt (hk m (by simp)) hins)
+        (fun x hx' => hk x (by simp [hx'])) hx
       exact ⟨e, by rw [he, hfail]⟩
 
 theorem newFS_plain_fail (ms : List Member) (hk : ∀ m ∈ ms, m.kind = .dir ∨ m.kind = .reg)
     (hx : extract ms = none) : ∃ e, newFS ms = .error e := by
-  obtain ⟨e, he⟩ := addMembers_plain_fail ms rootFS xRoot rootFS_treeOK rootFS_rep hk hx
+  have hroot : PlainTree xRoot := by
+    intro k x hx'
+    simp only [xRoot, alGet] at hx'
+    split at hx'
+    · cases hx'; exact Or.inl rfl
+    · cases hx'
+  obtain ⟨e, he⟩ := addMembers_plain_fail ms rootFS xRoot rootFS_treeOK rootFS_rep hroot hk hx
   exact ⟨e, by simp [newFS, he]⟩
 
 end ClairModel.TarFS
